@@ -447,8 +447,11 @@ impl<B: Body> RequestBuilder<B> {
         match prepped.body.kind()? {
             BodyKind::Empty => {
                 headers.remove(TRANSFER_ENCODING);
-                if headers.get_all(CONTENT_LENGTH).iter().any(|val| val != "0") {
-                    headers.remove(CONTENT_LENGTH);
+                // An explicit `Content-Length: 0` may stay, once.
+                if let Some(len) = headers.remove(CONTENT_LENGTH) {
+                    if len == "0" {
+                        headers.insert(CONTENT_LENGTH, len);
+                    }
                 }
             }
             BodyKind::KnownLength(len) => {
